@@ -158,6 +158,35 @@ func main() {
 		}
 		wg.Wait()
 	}
+	// one argument value handed to several calls at once (the same card, profile, task, reader map
+	// pushed to two controllers from two goroutines): operations only read their arguments
+	{
+		devices := []uhppote.Device{
+			{DeviceID: a.serial, Address: types.ControllerAddrFrom(lo, a.port), Protocol: "udp"},
+			{DeviceID: b.serial, Address: types.ControllerAddrFrom(lo, b.port), Protocol: "tcp"},
+		}
+		u := uhppote.NewUHPPOTE(types.BindAddr{}, types.BroadcastAddrFrom(lo, a.port), types.ListenAddr{}, timeout, devices, false)
+		from, to := types.ToDate(2024, 1, 1), types.ToDate(2024, 12, 31)
+		card := types.Card{CardNumber: 8165538, From: from, To: to, Doors: map[uint8]uint8{1: 1, 2: 0, 3: 29, 4: 1}, PIN: 7531}
+		profile := types.TimeProfile{ID: 29, LinkedProfileID: 3, From: from, To: to, Weekdays: types.Weekdays{time.Monday: true, time.Friday: true},
+			Segments: types.Segments{1: {Start: types.NewHHmm(8, 30), End: types.NewHHmm(9, 45)}, 2: {}, 3: {}}}
+		task := types.Task{Task: types.EnableMoreCards, Door: 3, From: from, To: to, Weekdays: types.Weekdays{time.Tuesday: true}, Start: types.NewHHmm(7, 15), Cards: 2}
+		readers := map[uint8]bool{1: true, 2: false, 3: true, 4: true}
+		codes := []uint32{12345, 54321, 999999, 1, 7, 8}[:4]
+		var wg sync.WaitGroup
+		for round := 0; round < 3; round++ {
+			for _, serial := range []uint32{a.serial, b.serial, a.serial} {
+				serial := serial
+				wg.Add(5)
+				go func() { defer wg.Done(); u.PutCard(serial, card) }()
+				go func() { defer wg.Done(); u.SetTimeProfile(serial, profile) }()
+				go func() { defer wg.Done(); u.AddTask(serial, task) }()
+				go func() { defer wg.Done(); u.ActivateKeypads(serial, readers) }()
+				go func() { defer wg.Done(); u.SetDoorPasscodes(serial, 3, codes...) }()
+			}
+			wg.Wait()
+		}
+	}
 	for rep := 0; rep < reps; rep++ {
 		for _, fixed := range []bool{false, true} {
 			bind := types.BindAddr{}
